@@ -360,7 +360,8 @@ Definition spec_read (bs : bytes)
           let size := len bs in
           let limit := get32 bs (hdr + c_limitOff) in
           if negb ((size mod c_pageSize =? 0) && (c_minFileLen <=? size) && (limit <=? size)
-                   && (limit mod c_recordUnit =? 0))
+                   && (limit mod c_recordUnit =? 0)
+                   && ((limit =? 0) || (first_off hdr <=? limit)))
           then None else
           match map_opt (fun ih => spec_bucket bs hdr limit (fst ih) (snd ih))
                         (combine buckets (table_heads bs hdr)) with
